@@ -148,35 +148,46 @@ class C19:
         nt = any(ITEMS[i][1] or '\\u' in ITEMS[i][0] for i in seq)
         return {'viol': viol, 'out': txt, 'nt': nt, 'tr': 1}
 
+    def init_worker(self):
+        pass
+
+    def conformance_picks(self, seed):
+        k = 1201 + seed % 37
+        return [c[:2] for i, c in enumerate(self.cases('quick', seed)) if i % k == seed % k][:30]
+
     def finish(self, ctx):
-        """the same list through `python -m yalafi.shell --list-unknown` (and through `python -m yalafi --unkn`)"""
+        self.init_worker()
+        n = 0
+        viol = []
+        for case in self.conformance_picks(ctx['seed']):
+            k, vs = self.conformance_one(case)
+            n += k
+            viol += [(case, v) for v in vs]
+        return {'conformance_replays': n, 'viol': viol}
+
+    def conformance_one(self, case):
+        """the same list through `python -m yalafi.shell --list-unknown` and through `python -m yalafi --unkn`"""
         import os
         import subprocess
         import sys
         from .. import core, shell
-        seed = ctx['seed']
         d = os.path.join(core.scratch_dir(), 'unk')
         os.makedirs(d, exist_ok=True)
-        k = 1201 + seed % 37
-        picks = [c[:2] for i, c in enumerate(self.cases('quick', seed)) if i % k == seed % k][:30]
+        seq, pack = case
         viol = []
-        n = 0
-        for seq, pack in picks:
-            src = build(seq)
-            exp = model(seq, pack)
-            rc, out, err, args = shell.run_cli(['--list-unknown', '--packages', pack, 'u.tex'], {'u.tex': src}, {}, shell.lt_answer([]), d)
-            want = ('=== u.tex ===\n' + '\n'.join(exp) + '\n') if exp else ''
-            n += 1
-            if rc != 0 or out.decode('utf-8') != want:
-                viol.append(([seq, pack], {'clause': '--list-unknown prints the same list', 'sig': 'C19:shell-list-unknown',
-                                          'detail': {'source': src, 'pack': pack, 'rc': rc, 'stdout': out.decode('utf-8', 'replace'), 'expected': want, 'stderr': err[-300:]}}))
-            p = subprocess.run([sys.executable, '-m', 'yalafi', '--unkn', '--pack', pack, os.path.join(d, 'u.tex')], cwd=d, capture_output=True,
-                               env=dict(os.environ, PYTHONPATH=core.REPO))
-            n += 1
-            if p.returncode != 0 or p.stdout.decode('utf-8') != '\n'.join(exp) + '\n':
-                viol.append(([seq, pack], {'clause': '`python -m yalafi --unkn` prints the same list', 'sig': 'C19:cli-unkn',
-                                          'detail': {'source': src, 'pack': pack, 'rc': p.returncode, 'stdout': p.stdout.decode('utf-8', 'replace'), 'expected': exp}}))
-        return {'conformance_replays': n, 'viol': viol}
+        src = build(seq)
+        exp = model(seq, pack)
+        rc, out, err, args = shell.run_cli(['--list-unknown', '--packages', pack, 'u.tex'], {'u.tex': src}, {}, shell.lt_answer([]), d)
+        want = ('=== u.tex ===\n' + '\n'.join(exp) + '\n') if exp else ''
+        if rc != 0 or out.decode('utf-8') != want:
+            viol.append({'clause': '--list-unknown prints the same list', 'sig': 'C19:shell-list-unknown',
+                         'detail': {'source': src, 'pack': pack, 'rc': rc, 'stdout': out.decode('utf-8', 'replace'), 'expected': want, 'stderr': err[-300:]}})
+        p = subprocess.run([sys.executable, '-m', 'yalafi', '--unkn', '--pack', pack, os.path.join(d, 'u.tex')], cwd=d, capture_output=True,
+                           env=dict(os.environ, PYTHONPATH=core.REPO))
+        if p.returncode != 0 or p.stdout.decode('utf-8') != '\n'.join(exp) + '\n':
+            viol.append({'clause': '`python -m yalafi --unkn` prints the same list', 'sig': 'C19:cli-unkn',
+                         'detail': {'source': src, 'pack': pack, 'rc': p.returncode, 'stdout': p.stdout.decode('utf-8', 'replace'), 'expected': exp}})
+        return 2, viol
 
     def explain(self, case):
         return 'source %r pack=%r\nmodel %r' % (build(case[0]), case[1], model(case[0], case[1]))
